@@ -616,6 +616,14 @@ def fault_family(seed, tier):
     # divisors that are compile-time constants (literal, const variable) under a run-time dividend
     add('div_const_zero', 'const int Z = 0; const int ONE = 1;\nempty @is_you(int x, int y) { int[] a = [x, 5]; int v = x; write(\'a\'); if (y == 1) { write(x / Z); } if (y == 2) { write(x %% Z); } if (y == 3) { a[0] %%= 0; } if (y == 4) { v /= 0; } if (y == 5) { a[1] /= Z; } write(x / ONE); write(\'b\'); write(a[0]); write(v); }'.replace('%%', '%'),
         [[7, k] for k in range(0, 6)])
+    # faults inside expression statements whose value is discarded
+    src = '''int z = 0; int[] GA = [1, 2, 3];
+empty @is_you(int k, int i) { int[] la = [4, 5]; string s = "ab"; write('a'); if (k == 0) { 10 / z; } if (k == 1) { GA[i]; } if (k == 2) { la[i]; } if (k == 3) { s[i]; } if (k == 4) { 7 %% (i - i); } if (k == 5) { -(10 / z); } if (k == 6) { (10 / z) is byte; }
+  if (k == 7) { [1, 10 / z]; } if (k == 8) { la[i] + 1; } if (k == 9) { GA[i] > 0; } write('b'); }'''.replace('%%', '%')
+    for k in range(10):
+        for i in (0, 5, -1):
+            items.append(runner.Item(('flt', 'discarded_value', k, i), src, [str(k), str(i)], s=120,
+                                     meta={'family': 'fault:discarded_value', 'classifier': {'site': 'discarded_value'}}))
     # divisors that are lengths (of entry arrays / strings, dynamic arrays, literals), possibly zero
     src = '''int cnt(const int[] p) { return 100 / p.length; }
 empty @is_you(int n, string s, const int[] v) { int a[n]; write('a'); if (n == 0) { write(10 / a.length); } if (n == 1) { write(10 %% s.length); } if (n == 2) { write(10 / v.length); write(10 %% v.length); }
@@ -650,7 +658,7 @@ empty @is_you(int n, string s, const int[] v) { int a[n]; write('a'); if (n == 0
                                  [str(i), '10', '20', '30'], s=120, meta={'family': 'fault:idx_entry_arr', 'classifier': {'site': 'idx_entry_arr'}}))
         items.append(runner.Item(('flt', 'idx_entry_strs', i), 'empty @is_you(int i, const string[] v) { write(\'a\'); write(v[i]); write(\'b\'); }',
                                  [str(i), 'x', 'yy', 'zzz'], s=120, meta={'family': 'fault:idx_entry_strs', 'classifier': {'site': 'idx_entry_strs'}}))
-    lens = [[-8], [-7], [-1], [0], [1], [2], [9], [m], [-m - 1], [m // 2], [m // 2 + 1], [16383], [16384]]
+    lens = [[-8], [-7], [-1], [0], [1], [2], [9], [m], [-m - 1], [m // 2], [m // 2 + 1], [16383], [16384], [-m], [-m + 1], [-16384], [-16383]]
     for el, val in [('int', '1'), ('byte', "'b'"), ('bool', 'true'), ('string', '"s"')]:
         add('vla_len_' + el, 'empty @is_you(int n) { int before = 3; write(\'a\'); %s a[n]; write(\'b\'); write(a.length); if (n > 0) { a[0] = %s; a[n - 1] = %s; write(a[0]); } write(before); }' % (el, val, val), lens, s=200)
         add('vla_len_expr_' + el, 'int f(int n) { write(\'f\'); return n; }\nempty @is_you(int n) { write(\'a\'); %s a[f(n) * 1]; write(a.length); }' % el, [[-1], [0], [3]], s=200)
